@@ -1,14 +1,16 @@
+\* single-key reads caught in flight on a second thread (ReadBegin .. ReadEnd) while the first thread's batches, children
+\* and iterators go on: the read yields what was committed when it was opened
 SPECIFICATION MCSpec
 CONSTANTS
-  NS = 2
+  NS = 1
   NK = 2
   Vals = {1, 2}
-  MaxDepth = 3
+  MaxDepth = 2
   NR = 1
   NT = 2
   Writers = {1}
-  ItThreads = {1}
-  RdThreads = {}
+  ItThreads = {1, 2}
+  RdThreads = {2}
   MapInit = 10
   UsedInit = 0
   Chunk = 10
@@ -17,7 +19,7 @@ CONSTANTS
   NestedCloseClearsMark = FALSE
   ReadNotCounted = FALSE
   BatchMax = 1
-  MaxOps = 7
+  MaxOps = 8
   WithReads = FALSE
   Stride = 1
   Offset = 0
